@@ -757,6 +757,17 @@ class Interp:
         return inst
 
     def call_function(self, f, args, kwargs):
+        # nesting depth per function (recursion depth is observable: one Python frame per activation)
+        act = self.__dict__.setdefault("activations", {})
+        mx = self.__dict__.setdefault("max_activations", {})
+        act[f.qual] = act.get(f.qual, 0) + 1
+        mx[f.qual] = max(mx.get(f.qual, 0), act[f.qual])
+        try:
+            return self._call_function(f, args, kwargs)
+        finally:
+            act[f.qual] -= 1
+
+    def _call_function(self, f, args, kwargs):
         a = f.node.args
         env = {}
         params = [x.arg for x in a.posonlyargs + a.args]
